@@ -11,7 +11,7 @@ from .interp import AV, TOP, const, cval, has_const, join, join_all
 from .kinds import Mono, is_cart, is_fdiff, is_frac, is_fractional, num, parse_unit_label
 from .model_base import TRAJ, deps_union
 from .model_npcalls import as_array
-from .model_numpy import XYZ, fresh, mono_of
+from .model_numpy import XYZ, fresh, is_table, mono_of
 from .source import norm_text
 
 PMG_TRAJ = 'pymatgen.core.trajectory.Trajectory'
@@ -596,25 +596,36 @@ class LibsModel:
         if ty in ('DataFrame', 'Row', 'Series'):
             return self.pandas_method(interp, st, recv, name, args, kwargs, node, frame, d)
         if ty == 'Graph':
+            def _attrs(kw_):
+                # attribute keywords; `**mapping` contributes its known entries ('**' stays when entries may be unknown)
+                out_ = {k: v for k, v in kw_.items() if k != '**'}
+                m = kw_.get('**')
+                if m is not None:
+                    out_.update(m.kw or {})
+                    if m.ty != 'dict' or m.open_kw or not m.kw:
+                        out_['**'] = m
+                return out_
             if name == 'add_node':
-                interp.emit('graph_add_node', node, graph=recv, key=args[0] if args else None, attrs=dict(kwargs))
+                interp.emit('graph_add_node', node, graph=recv, key=args[0] if args else None, attrs=_attrs(kwargs))
                 return const(None)
-            if name == 'add_edge':
-                interp.emit('graph_add_edge', node, graph=recv, u=args[0], v=args[1], attrs=dict(kwargs))
+            if name == 'add_edge' and len(args) >= 2:
+                interp.emit('graph_add_edge', node, graph=recv, u=args[0], v=args[1], attrs=_attrs(kwargs))
                 return const(None)
             if name == 'add_nodes_from' and args:
                 el = self.iter_item(interp, st, args[0], None, None)
-                attrs = dict(kwargs)
+                attrs = _attrs(kwargs)
                 key = el
                 if el is not None and el.ty == 'tuple' and el.elts is not None and len(el.elts) == 2 and el.elts[1].ty == 'dict':
                     key = el.elts[0]
                     attrs.update(el.elts[1].kw or {})
-                interp.emit('graph_add_node', node, graph=recv, key=key, attrs=attrs)
+                # items whose shape is not known may be (node, attribute dict) pairs
+                opaque = el is None or el.ty is None or (el.ty == 'tuple' and (el.elts is None or (len(el.elts) == 2 and el.elts[1].ty in (None, 'dict') and not el.elts[1].kw)))
+                interp.emit('graph_add_node', node, graph=recv, key=key, attrs=attrs, opaque=opaque or None)
                 return const(None)
             if name in ('add_edges_from', 'add_weighted_edges_from') and args:
                 el = self.iter_item(interp, st, args[0], None, None)
                 if el is not None and el.ty == 'tuple' and el.elts is not None and len(el.elts) >= 2:
-                    attrs = dict(kwargs)
+                    attrs = _attrs(kwargs)
                     if len(el.elts) > 2 and el.elts[2].ty == 'dict':
                         attrs.update(el.elts[2].kw or {})
                     interp.emit('graph_add_edge', node, graph=recv, u=el.elts[0], v=el.elts[1], attrs=attrs)
@@ -887,6 +898,10 @@ class LibsModel:
                 out = out.w(ty='tuple', elts=list(it.colvals), rowof=True)
             if ax == ():
                 out = out.w(ty='float' if it.dtype != 'int' else 'int')
+            if it.tbl is not None or is_table(it.litconst):
+                out = out.w(tbl=it.tbl if it.tbl is not None else it.litconst)  # a row of a literal table
+            if it.bin is not None and it.tbl is not None:
+                out = out.w(bin=it.bin)  # a row of (node + table) % shape is (node + row) % shape
             return out
         if ty == 'Structure':
             return AV(ty='PeriodicSite', deps=it.deps)
